@@ -15,6 +15,8 @@ Decided:
      otherwise the parsed value is returned and exactly H + R bytes are consumed (advance(H + R), or clear() only when L = H + R);
  (d) encode_length_checked_json writes, into the H-byte slot in front of the payload, the big-endian u64 length of the buffer
      serde_json::to_writer filled; header width and endianness agree with decode (u64 / be / H = 8).
+ (e) K2-codec-delegates: Decoder::decode / Encoder::encode of ConsumerCodec and SupplierCodec are pure delegations to (a)-(d)'s functions:
+     no other use of the buffer, no early return, no hand-built Err.
 Not decided: behaviour over actual chunkings and back-to-back frames at run time, tokio's Framed loop, serde behaviour.
 """
 import itertools
